@@ -28,15 +28,59 @@ def translate():
     return {'Gen/Padding.v': T.translate(), 'Gen/ResizeDiscr.v': T.translate_discr()}
 
 
-def impl_resize(arr, newshp, off, mode, c, direction):
+class _SubArr(np.ndarray):
+    """an ndarray subclass: np.asarray(view) is a NEW base-class object sharing the caller's memory"""
+
+
+WRAP_KINDS = ['ndarray', 'ndarray', 'subclass', 'memoryview', 'rn-element', 'discr-element', 'strided', 'fortran']
+
+
+def wrap_input(rng, arr, kind=None):
+    """Return (object handed to the implementation, array owning the memory, kind).  The owner is compared
+    bitwise before/after the call: array-likes whose np.asarray() is a new object sharing memory (ODL
+    elements, subclass views, memoryviews) and non-contiguous layouts are all exercised."""
+    import odl
+    kind = kind or rng.choice(WRAP_KINDS)
+    arr = np.ascontiguousarray(arr)
+    if kind == 'subclass':
+        return arr.view(_SubArr), arr, kind
+    if kind == 'memoryview' and arr.size > 0:
+        return memoryview(arr), arr, kind
+    if kind == 'rn-element' and arr.size > 0:
+        el = odl.tensor_space(arr.shape, dtype=arr.dtype).element(arr)
+        if np.shares_memory(np.asarray(el), arr):
+            return el, arr, kind
+    if kind == 'discr-element' and arr.size > 0 and arr.ndim >= 1:
+        el = odl.uniform_discr([0] * arr.ndim, [1] * arr.ndim, arr.shape, dtype=arr.dtype).element(arr)
+        if np.shares_memory(np.asarray(el), arr):
+            return el, arr, kind
+    if kind == 'strided' and arr.ndim >= 1:
+        big = np.zeros(arr.shape[:-1] + (2 * arr.shape[-1],), dtype=arr.dtype)
+        view = big[..., ::2]
+        view[...] = arr
+        return view, big, kind
+    if kind == 'fortran' and arr.ndim >= 2:
+        f = np.asfortranarray(arr)
+        return f, f, kind
+    return arr, arr, 'ndarray'
+
+
+def impl_resize(arr, newshp, off, mode, c, direction, rng=None, kind=None):
+    """-> (outcome literal, input kept bitwise AND a second evaluation gives the same result, wrapper kind)"""
     from odl.util.numerics import resize_array
+    obj, owner, kind = wrap_input(rng, arr, kind) if (rng is not None or kind) else (arr, arr, 'ndarray')
+    before = owner.tobytes()
     try:
-        r = resize_array(arr, newshp, offset=off, pad_mode=mode, pad_const=c, direction=direction)
-        return 'IOk %s' % C.qs(np.asarray(r).ravel().tolist())
+        r = resize_array(obj, newshp, offset=off, pad_mode=mode, pad_const=c, direction=direction)
+        r = np.array(r)
+        kept = owner.tobytes() == before
+        r2 = np.asarray(resize_array(obj, newshp, offset=off, pad_mode=mode, pad_const=c, direction=direction))
+        kept = kept and owner.tobytes() == before and r2.tobytes() == r.tobytes()
+        return 'IOk %s' % C.qs(np.asarray(r).ravel().tolist()), kept, kind
     except ValueError:
-        return 'IValueErr'
+        return 'IValueErr', owner.tobytes() == before, kind
     except Exception:
-        return 'IOtherErr'
+        return 'IOtherErr', owner.tobytes() == before, kind
 
 
 def cases_1d(rng, tier):
@@ -54,14 +98,14 @@ def cases_1d(rng, tier):
                 else:
                     c = rng.choice([0, 0, 3])
                 cast = bool(np.can_cast(c, arr.dtype))
-                out = impl_resize(arr, (m,), None if (off == 0 and rng.random() < 0.4) else off, mode, c, d)
+                out, kept, kind = impl_resize(arr, (m,), None if (off == 0 and rng.random() < 0.4) else off, mode, c, d, rng)
                 term = ('{| k_m := %s; k_d := %s; k_c := %s; k_cast := %s; k_arr := %s; k_nout := %s; '
-                        'k_off := %s; k_out := %s |}'
-                        % (T.PMODE[mode], DIRK[d], C.q(c), C.b(cast), C.qs(arr.tolist()), C.nat(m), C.z(off), out))
+                        'k_off := %s; k_out := %s; k_kept := %s |}'
+                        % (T.PMODE[mode], DIRK[d], C.q(c), C.b(cast), C.qs(arr.tolist()), C.nat(m), C.z(off), out, C.b(kept)))
                 key = ((mode, d, n, m, off, c, dt.__name__, tuple(arr.tolist()))
                        if (arr.any() or out.startswith('IValueErr')) else None)
                 cs.add(term, {'mode': mode, 'direction': d, 'arr': arr.tolist(), 'dtype': dt.__name__,
-                              'newshp': m, 'offset': off, 'pad_const': c}, key)
+                              'newshp': m, 'offset': off, 'pad_const': c, 'input_kind': kind, 'input_kept': kept}, key)
     # complex dtype: real and imaginary parts are resized separately (the constant goes to the real part)
     from odl.util.numerics import resize_array
     for mode, d in itertools.product(MODES, DIRS):
@@ -71,19 +115,22 @@ def cases_1d(rng, tier):
             re = np.array([rng.randint(-9, 9) for _ in range(n)], dtype=float)
             im = np.array([rng.randint(-9, 9) for _ in range(n)], dtype=float)
             c = rng.choice([0, 2, -1]) if (mode == 'constant' and d == 'forward') else 0
+            obj, owner, kind = wrap_input(rng, re + 1j * im)
+            before = owner.tobytes()
             try:
-                r = resize_array(re + 1j * im, (m,), offset=off, pad_mode=mode, pad_const=c, direction=d)
+                r = np.array(resize_array(obj, (m,), offset=off, pad_mode=mode, pad_const=c, direction=d))
                 outs = ('IOk %s' % C.qs(r.real.tolist()), 'IOk %s' % C.qs(r.imag.tolist()))
             except ValueError:
                 outs = ('IValueErr', 'IValueErr')
             except Exception:
                 outs = ('IOtherErr', 'IOtherErr')
+            kept = owner.tobytes() == before
             for part, arr, cc, o in (('re', re, c, outs[0]), ('im', im, 0, outs[1])):
                 term = ('{| k_m := %s; k_d := %s; k_c := %s; k_cast := true; k_arr := %s; k_nout := %s; '
-                        'k_off := %s; k_out := %s |}'
-                        % (T.PMODE[mode], DIRK[d], C.q(cc), C.qs(arr.tolist()), C.nat(m), C.z(off), o))
+                        'k_off := %s; k_out := %s; k_kept := %s |}'
+                        % (T.PMODE[mode], DIRK[d], C.q(cc), C.qs(arr.tolist()), C.nat(m), C.z(off), o, C.b(kept)))
                 cs.add(term, {'mode': mode, 'direction': d, 'arr': arr.tolist(), 'dtype': 'complex/' + part,
-                              'newshp': m, 'offset': off, 'pad_const': cc},
+                              'newshp': m, 'offset': off, 'pad_const': cc, 'input_kind': kind, 'input_kept': kept},
                        (mode, d, n, m, off, cc, 'complex', part, tuple(arr.tolist())) if arr.any() or o == 'IValueErr' else None)
     return cs
 
@@ -130,16 +177,16 @@ def cases_nd(rng, tier):
             else:
                 c = 0
             cast = bool(np.can_cast(c, arr.dtype))
-            out = impl_resize(arr, tuple(osh), offs, mode, c, d)
+            out, kept, kind = impl_resize(arr, tuple(osh), offs, mode, c, d, rng)
             term = ('{| n_m := %s; n_d := %s; n_c := %s; n_cast := %s; n_ishape := %s%%nat; n_arr := %s; '
-                    'n_oshape := %s%%nat; n_offs := %s%%Z; n_out := %s |}'
+                    'n_oshape := %s%%nat; n_offs := %s%%Z; n_out := %s; n_kept := %s |}'
                     % (T.PMODE[mode], DIRK[d], C.q(c), C.b(cast), C.nats(ish), C.qs(arr.ravel().tolist()),
-                       C.nats(osh), C.zs(offs), out))
+                       C.nats(osh), C.zs(offs), out, C.b(kept)))
             key = ((mode, d, tuple(ish), tuple(osh), tuple(offs), c, dt.__name__, tuple(arr.ravel().tolist()))
                    if (arr.any() or out.startswith('IValueErr')) else None)
             cs.add(term, {'mode': mode, 'direction': d, 'ishape': ish, 'oshape': osh, 'offset': offs,
                           'dtype': dt.__name__, 'pad_const': c, 'arr': arr.tolist(),
-                          'outcome': out[:10]}, key)
+                          'outcome': out[:10], 'input_kind': kind, 'input_kept': kept}, key)
     return cs
 
 
@@ -196,11 +243,25 @@ def cases_op(rng, tier):
                 mins.append(mn); maxs.append(mn + ext); shape.append(n)
                 nnew.append(m_); offs.append(off); flags.append((bl, br)); kw_flags.append((nbl, nbr))
             c = rng.choice([0, 0, 1.5, -2]) if mode == 'constant' else 0
-            X = odl.uniform_discr(mins, maxs, shape, nodes_on_bdry=flags)
+            # attributes the inferred range must inherit from the domain unless given in discr_kwargs
+            dom_w = rng.choice([None, None, 2.0, 0.5, 3.0])
+            dom_exp = 2.0 if dom_w is None or rng.random() < 0.8 else 1.0
+            dom_dt = rng.choice(['float64', 'float64', 'float32'])
+            kw_w = rng.choice([None, None, None, 4.0])
+            kw_exp = None if rng.random() < 0.85 else 1.0
+            kw_dt = None if rng.random() < 0.85 else rng.choice(['float64', 'float32'])
+            dkw = {'nodes_on_bdry': kw_flags}
+            if kw_w is not None:
+                dkw['weighting'] = kw_w
+            if kw_exp is not None:
+                dkw['exponent'] = kw_exp
+            if kw_dt is not None:
+                dkw['dtype'] = kw_dt
+            xkw = {} if dom_w is None else {'weighting': dom_w}
+            X = odl.uniform_discr(mins, maxs, shape, nodes_on_bdry=flags, exponent=dom_exp, dtype=dom_dt, **xkw)
             try:
                 op = odl.ResizingOperator(X, ran_shp=tuple(nnew), offset=None if all(o is None for o in offs)
-                                          else [o for o in offs], pad_mode=mode, pad_const=c,
-                                          discr_kwargs={'nodes_on_bdry': kw_flags})
+                                          else [o for o in offs], pad_mode=mode, pad_const=c, discr_kwargs=dkw)
             except Exception:
                 continue
             explicit = (k % 3 == 1)
@@ -212,24 +273,53 @@ def cases_op(rng, tier):
                     continue
             x = np.array([rng.randint(-9, 9) for _ in range(int(np.prod(shape)))], dtype=float).reshape(shape)
             y = np.array([rng.randint(-9, 9) for _ in range(int(np.prod(nnew)))], dtype=float).reshape(nnew)
-            fx = _out(lambda: op(x))
-            ay = _out(lambda: op.adjoint(y))
-            inv = _out(lambda: op.inverse(op(x)))
             R = op.range
+            # inputs handed over as ndarrays / space elements / subclass views; compared bitwise afterwards
+            xk = rng.choice(['ndarray', 'element', 'subclass'])
+            xa = np.ascontiguousarray(x, dtype=X.dtype); ya = np.ascontiguousarray(y, dtype=R.dtype)
+            xin = {'ndarray': xa, 'element': X.element(xa), 'subclass': xa.view(_SubArr)}[xk]
+            yin = {'ndarray': ya, 'element': R.element(ya), 'subclass': ya.view(_SubArr)}[xk]
+            bx, by = xa.tobytes(), ya.tobytes()
+            fx = _out(lambda: op(xin))
+            ay = _out(lambda: op.adjoint(yin))
+            ay2 = _out(lambda: op.adjoint(yin))
+            fx2 = _out(lambda: op(xin))
+            inv = _out(lambda: op.inverse(op(xin)))
+            kept = (xa.tobytes() == bx and ya.tobytes() == by and ay2 == ay and fx2 == fx
+                    and np.array_equal(np.asarray(xin), x) and np.array_equal(np.asarray(yin), y))
+            DT = {'float64': 0, 'float32': 1}
+            wconst = lambda sp: float(getattr(sp.weighting, 'const', float('nan')))
+            inner = 'None'
+            if (op.is_linear and X.is_uniformly_weighted and R.is_uniformly_weighted and X.exponent == 2.0
+                    and R.exponent == 2.0 and str(X.dtype) == 'float64' and str(R.dtype) == 'float64'):
+                try:
+                    inner = '(Some (%s, %s))' % (C.q(float(op(X.element(x)).inner(R.element(y)))),
+                                                 C.q(float(X.element(x).inner(op.adjoint(R.element(y))))))
+                except Exception:
+                    inner = 'None'
+            oq = lambda v: 'None' if v is None else '(Some %s)' % C.q(v)
             doms = C.lst(dom, lambda d: '(%s, %s, %s%%Z, (%s, %s))' % (C.q(d[0]), C.q(d[1]), C.z(d[2]),
                                                                     C.b(d[3][0]), C.b(d[3][1])))
             term = ('{| o_adjguard := %s; o_m := %s; o_c := %s; o_dom := %s; o_nnew := %s%%Z; o_off := %s; '
                     'o_flags := %s; o_rmin := %s; o_rmax := %s; o_rcs := %s; o_offset := %s%%Z; o_islinear := %s; o_axes := %s%%nat; '
-                    'o_x := %s; o_fx := %s; o_y := %s; o_ay := %s; o_inv := %s |}'
+                    'o_x := %s; o_fx := %s; o_y := %s; o_ay := %s; o_inv := %s; o_w := (%s, %s, %s); '
+                    'o_exp := (%s, %s, %s); o_dtype := (%s, %s, %s)%%nat; o_inner := %s; o_kept := %s |}'
                     % (C.b(adjguard and not (op.domain.is_uniformly_weighted and op.range.is_uniformly_weighted)),
                        T.PMODE[mode], C.q(c), doms, C.zs(nnew),
                        C.lst(offs, lambda o: 'None' if o is None else '(Some %s%%Z)' % C.z(o)),
                        C.lst(kw_flags, lambda f: '(%s, %s)' % (C.b(f[0]), C.b(f[1]))),
                        C.qs(R.min_pt.tolist()), C.qs(R.max_pt.tolist()), C.qs(R.cell_sides.tolist()),
                        C.zs([int(o) for o in op.offset]), C.b(bool(op.is_linear)), C.nats(list(op.axes)),
-                       C.qs(x.ravel().tolist()), fx, C.qs(y.ravel().tolist()), ay, inv))
+                       C.qs(x.ravel().tolist()), fx, C.qs(y.ravel().tolist()), ay, inv,
+                       C.q(wconst(X)), oq(kw_w), C.q(wconst(R)),
+                       C.q(X.exponent), oq(kw_exp), C.q(R.exponent),
+                       DT[str(X.dtype)], 'None' if kw_dt is None else '(Some %d)' % DT[kw_dt], DT[str(R.dtype)],
+                       inner, C.b(kept)))
             cs.add(term, {'mode': mode, 'domain': dom, 'ran_shp': nnew, 'offset': offs, 'kw_nodes_on_bdry': kw_flags,
-                          'pad_const': c, 'x': x.tolist(), 'explicit_range': explicit},
+                          'pad_const': c, 'x': x.tolist(), 'explicit_range': explicit,
+                          'domain_weighting': dom_w, 'domain_exponent': dom_exp, 'domain_dtype': dom_dt,
+                          'kw_weighting': kw_w, 'kw_exponent': kw_exp, 'kw_dtype': kw_dt, 'input_kind': xk,
+                          'input_kept': kept},
                    (mode, explicit, tuple(dom), tuple(nnew), tuple(offs), tuple(kw_flags), c, tuple(x.ravel().tolist())))
     return cs
 
@@ -592,6 +682,103 @@ def probes(rng, tier):
                                'resize_array(out=NaN-filled %s-order array) gives the same result and leaves the input unchanged' % order, rp))
     out += transpose_probes(rng, tier)
     out += range_flag_probes(rng, tier)
+    out += input_kept_probes(rng, tier)
+    out += inherit_probes(rng, tier)
+    return out
+
+
+_WRAP_SRC = """
+class _V(np.ndarray):
+    pass
+def wrap(a, kind):
+    # -> (object handed to the library, array owning the memory)
+    a = np.ascontiguousarray(a)
+    if kind == 'subclass': return a.view(_V), a
+    if kind == 'memoryview': return memoryview(a), a
+    if kind == 'rn-element': return odl.rn(a.shape).element(a), a
+    if kind == 'discr-element': return odl.uniform_discr([0]*a.ndim, [1]*a.ndim, a.shape).element(a), a
+    if kind == 'strided':
+        big = np.zeros(a.shape[:-1] + (2*a.shape[-1],)); v = big[..., ::2]; v[...] = a; return v, big
+    if kind == 'fortran': f = np.asfortranarray(a); return f, f
+    return a, a
+"""
+
+
+def input_kept_probes(rng, tier, only_mode=None):
+    """The caller's input (any array-like sharing memory with what np.asarray returns) is bitwise unchanged by
+    both directions, a second evaluation with the same object gives the same result, and the result equals the one
+    for a fresh plain copy; array level and operator level."""
+    out = []
+    pre = "import numpy as np, odl\nfrom odl.util.numerics import resize_array\n" + _REF_SRC + _WRAP_SRC
+    kinds = ['ndarray', 'subclass', 'memoryview', 'rn-element', 'discr-element', 'strided', 'fortran']
+    for mode in ([only_mode] if only_mode else MODES):
+        for kind in kinds:
+            for direction in DIRS:
+                for rep in range(1 if tier == 'quick' else 4):
+                    ndim = 2 if kind == 'fortran' else rng.choice([1, 2])
+                    ish, osh, offs = _legal_config(rng, mode, ndim, 4)
+                    a, b = (ish, osh) if direction == 'forward' else (osh, ish)
+                    vals = [rng.randint(1, 9) for _ in range(int(np.prod(a)))]
+                    rp = pre + ("a0=np.array(%r,dtype=float).reshape(%r)\nobj,owner=wrap(a0.copy(),%r)\nbefore=owner.tobytes()\n"
+                                "r1=np.array(resize_array(obj,%r,offset=%r,pad_mode=%r,direction=%r))\n"
+                                "r2=np.array(resize_array(obj,%r,offset=%r,pad_mode=%r,direction=%r))\n"
+                                "expected=resize_array(a0.copy(),%r,offset=%r,pad_mode=%r,direction=%r)\nobserved=r2\n"
+                                "ok=bool(owner.tobytes()==before and np.array_equal(r1,expected) and np.array_equal(r2,expected))\n"
+                                % (vals, a, kind, tuple(b), offs, mode, direction, tuple(b), offs, mode, direction,
+                                   tuple(b), offs, mode, direction))
+                    ok, _ = _run(rp)
+                    out.append(C.Probe(ok, 'input-kept-%s-%s' % (direction, kind),
+                                       'resize_array(%s, %s) leaves a %s input untouched and is repeatable (%s->%s)'
+                                       % (mode, direction, kind, a, b), rp))
+        # operator level: elements and subclass views as inputs of op and op.adjoint
+        for kind in ('element', 'subclass', 'ndarray'):
+            ish, osh, offs = _legal_config(rng, mode, rng.choice([1, 2]), 4, allow_shrink=False)
+            vx = [rng.randint(1, 9) for _ in range(int(np.prod(ish)))]
+            vy = [rng.randint(1, 9) for _ in range(int(np.prod(osh)))]
+            rp = pre + ("X=odl.uniform_discr(%r,%r,%r)\nop=odl.ResizingOperator(X,ran_shp=%r,offset=%r,pad_mode=%r)\n"
+                        "xa=np.array(%r,dtype=float).reshape(%r); ya=np.array(%r,dtype=float).reshape(%r)\n"
+                        "mk=lambda sp,a: sp.element(a) if %r=='element' else (a.view(_V) if %r=='subclass' else a)\n"
+                        "x=mk(X,xa); y=mk(op.range,ya); bx,by=xa.tobytes(),ya.tobytes()\n"
+                        "f1=np.array(op(x)); a1=np.array(op.adjoint(y)); a2=np.array(op.adjoint(y)); f2=np.array(op(x))\n"
+                        "ip1=float(op.range.element(f1).inner(op.range.element(ya))); ip2=float(X.element(xa).inner(X.element(a2)))\n"
+                        "observed=(ip1,ip2); expected='equal, inputs untouched'\n"
+                        "ok=bool(xa.tobytes()==bx and ya.tobytes()==by and np.array_equal(a1,a2) and np.array_equal(f1,f2) "
+                        "and abs(ip1-ip2)<=1e-9*(1+abs(ip1)))\n"
+                        % ([0.0] * len(ish), [float(n) for n in ish], ish, tuple(osh), offs, mode, vx, ish, vy, osh, kind, kind))
+            ok, _ = _run(rp)
+            out.append(C.Probe(ok, 'op-input-kept-%s' % kind,
+                               'op(x), op.adjoint(y) twice: inputs (%s) untouched, results repeatable, <Rx,y>=<x,R*y> afterwards (%s)'
+                               % (kind, mode), rp))
+    return out
+
+
+def inherit_probes(rng, tier):
+    """ResizingOperator(domain, ran_shp=...) without weighting/exponent/dtype in discr_kwargs: the inferred range
+    inherits them from the domain, so the adjoint identity holds in the weighted inner products also for a
+    user-chosen constant weighting of the domain."""
+    out = []
+    pre = "import numpy as np, odl\nfrom odl.util.numerics import resize_array\n"
+    for mode in MODES:
+        for k in range(3 if tier == 'quick' else 12):
+            ish, osh, offs = _legal_config(rng, mode, rng.choice([1, 2]), 4)
+            w = rng.choice([2.0, 0.5, 3.0, 7.0])
+            dt = rng.choice(['float64', 'float32', 'float64'])
+            expo = 2.0 if k % 3 else rng.choice([1.0, 2.0])
+            vx = [rng.randint(-5, 5) for _ in range(int(np.prod(ish)))]
+            vy = [rng.randint(-5, 5) for _ in range(int(np.prod(osh)))]
+            rp = pre + ("X=odl.uniform_discr(%r,%r,%r,weighting=%r,exponent=%r,dtype=%r)\n"
+                        "op=odl.ResizingOperator(X,ran_shp=%r,offset=%r,pad_mode=%r)\nR=op.range\n"
+                        "observed=(repr(R.weighting),R.exponent,str(R.dtype)); expected=(repr(X.weighting),X.exponent,str(X.dtype))\n"
+                        "ok=bool(R.weighting==X.weighting and R.exponent==X.exponent and R.dtype==X.dtype)\n"
+                        "if ok and X.exponent==2.0:\n"
+                        "    x=X.element(np.array(%r,dtype=float).reshape(%r)); y=R.element(np.array(%r,dtype=float).reshape(%r))\n"
+                        "    observed=float(op(x).inner(y)); expected=float(x.inner(op.adjoint(y)))\n"
+                        "    ok=bool(abs(observed-expected)<=1e-5*(1+abs(expected)))\n"
+                        % ([0.0] * len(ish), [n * 0.5 for n in ish], ish, w, expo, dt, tuple(osh), offs, mode, vx, ish, vy, osh))
+            ok, _ = _run(rp)
+            out.append(C.Probe(ok, 'range-inherits-domain-attrs-%s' % mode,
+                               'range inferred from ran_shp inherits weighting=%r / exponent / dtype of the domain; '
+                               '<Rx,y>_ran = <x,R*y>_dom (%s %s->%s)' % (w, mode, ish, osh), rp))
     return out
 
 
@@ -711,8 +898,13 @@ def search(rng, broken):
             ish = detail.get('ishape') or [len(detail.get('arr', []))]
             cands += transpose_probes(rng, 'thorough', only_mode=mode,
                                       sizes=sorted(set([1, 2, 3] + [n for n in ish if 0 < n <= 6])))
+        if detail.get('input_kept') is False and mode:
+            cands = input_kept_probes(rng, 'thorough', only_mode=mode) + cands
+        if 'domain_weighting' in detail:
+            cands += inherit_probes(rng, 'quick')
     if not cands:
-        cands = transpose_probes(rng, 'thorough') + range_flag_probes(rng, 'thorough')
+        cands = (transpose_probes(rng, 'thorough') + range_flag_probes(rng, 'thorough')
+                 + input_kept_probes(rng, 'quick') + inherit_probes(rng, 'quick'))
     for p in cands:
         if not p.ok and p.key not in known:
             return p
